@@ -6,6 +6,10 @@ from sa.sym import Engine, show, show_cond, subterms, C, is_const, PathLimit
 from .common import *
 from .tables import is_true, is_false
 from oracle import refchess
+import functools as _ft
+_Engine = Engine
+# these rules look at the closures handed to find / any / for_each / filter themselves (closure and loop form are both handled here)
+Engine = _ft.partial(_Engine, iter_adapters=False)
 
 EXPLANATION = (
     "Static clauses: (R1) every line of opening_lines.txt, replayed from the standard position with an independent "
